@@ -308,7 +308,10 @@ fn read_data_from_stream<F: Read + Seek>(
 ) -> io::Result<usize> {
     let (start_sector, stream_len) = {
         let dir_entry = minialloc.dir_entry(stream_id);
-        debug_assert_eq!(dir_entry.obj_type, ObjType::Stream);
+        if dir_entry.obj_type != ObjType::Stream {
+            // The stream was removed while this handle was still open.
+            not_found!("Stream no longer exists");
+        }
         (dir_entry.start_sector, dir_entry.stream_len)
     };
     let num_bytes = if buf_offset_from_start >= stream_len {
@@ -344,7 +347,10 @@ fn write_data_to_stream<F: Read + Write + Seek>(
 ) -> io::Result<()> {
     let (old_start_sector, old_stream_len) = {
         let dir_entry = minialloc.dir_entry(stream_id);
-        debug_assert_eq!(dir_entry.obj_type, ObjType::Stream);
+        if dir_entry.obj_type != ObjType::Stream {
+            // The stream was removed while this handle was still open.
+            not_found!("Stream no longer exists");
+        }
         (dir_entry.start_sector, dir_entry.stream_len)
     };
     if buf_offset_from_start > old_stream_len {
@@ -452,7 +458,10 @@ fn resize_stream<F: Read + Write + Seek>(
 ) -> io::Result<()> {
     let (old_start_sector, old_stream_len) = {
         let dir_entry = minialloc.dir_entry(stream_id);
-        debug_assert_eq!(dir_entry.obj_type, ObjType::Stream);
+        if dir_entry.obj_type != ObjType::Stream {
+            // The stream was removed while this handle was still open.
+            not_found!("Stream no longer exists");
+        }
         (dir_entry.start_sector, dir_entry.stream_len)
     };
     // So that an I/O error half-way cannot leave the directory entry pointing
